@@ -727,7 +727,7 @@ class Fold:
                 return F("deref")(self.scalarize(args[0])) if not isinstance(args[0], Matrix) else args[0]
             if op == "->":
                 return args[0]
-        if callee.startswith("std::") or callee in ("sqrt", "exp", "log", "sin", "cos", "acos", "pow", "fabs", "floor", "round"):
+        if callee.startswith("std::") or callee in ("sqrt", "exp", "log", "sin", "cos", "acos", "asin", "atan", "atan2", "tan", "pow", "fabs", "floor", "round"):
             a = args
             if short == "sqrt":
                 return sqrt(a[0])
@@ -741,6 +741,10 @@ class Fold:
                 return sp.cos(a[0])
             if short == "acos":
                 return sp.acos(a[0])
+            if short in ("asin", "atan", "tan") and len(a) == 1 and not isinstance(a[0], (Matrix, tuple)):
+                return {"asin": sp.asin, "atan": sp.atan, "tan": sp.tan}[short](a[0])
+            if short == "atan2" and len(a) == 2 and not any(isinstance(x, (Matrix, tuple)) for x in a):
+                return sp.atan2(a[0], a[1])
             if short == "pow" and len(a) == 2:
                 return sp.Pow(a[0], a[1])
             if short in ("abs", "fabs") and len(a) == 1:
